@@ -58,7 +58,7 @@ func faultBackend(ln net.Listener) {
 				case "garbage":
 					c.Write([]byte("SSH-2.0-NotHTTP\r\n\x00\x01\x02garbage\r\n\r\n"))
 					return
-				case "stall_body":
+				case "stall_body", "stall_body_upgrade":
 					c.Write([]byte("HTTP/1.1 200 OK\r\nContent-Type: text/plain\r\nContent-Length: 100\r\n\r\n0123456789"))
 					time.Sleep(9 * time.Second)
 					return
@@ -152,7 +152,11 @@ func oneRequestWithin(addr, fault string, bound time.Duration) map[string]any {
 			done <- "client-aborted"
 			return
 		}
-		fmt.Fprintf(conn.c, "GET /f HTTP/1.1\r\nHost: h\r\nX-Fault: %s\r\n\r\n", fault)
+		extra := ""
+		if fault == "stall_body_upgrade" {
+			extra = "Connection: Upgrade\r\nUpgrade: x-bogus\r\n"
+		}
+		fmt.Fprintf(conn.c, "GET /f HTTP/1.1\r\nHost: h\r\nX-Fault: %s\r\n%s\r\n", fault, extra)
 		resp, err := http.ReadResponse(conn.br, &http.Request{Method: "GET"})
 		if err != nil {
 			done <- "closed"
